@@ -1758,6 +1758,70 @@ fn deep_corpus(cx: &mut Cx) {
     }
 }
 
+// ---------------------------------------------------------------- the mirror (simulator/connection.rs)
+
+/// `SimulatedConnection` — the hand-written mirror of the read loop that the repository's own
+/// connection tests run.  Only valid commands can be fed to it (its input is `Command`s, which it
+/// encodes itself).  Correspondence: its responses vs `ConnSim.simRun` + the reference executor.
+/// Oracle: the same commands through the PRODUCTION handler (hook H1) get the same replies.
+fn mirror_case(cx: &mut Cx, cmds: &[Vec<Vec<u8>>], seed: u64, partial: f64, per_read: usize, src: &str) {
+    use redis_sim::redis::{Command, SDS};
+    use redis_sim::simulator::connection::SimulatedConnection;
+    let to_cmd = |c: &Vec<Vec<u8>>| -> Command {
+        let s = |b: &Vec<u8>| String::from_utf8_lossy(b).to_string();
+        match (String::from_utf8_lossy(&c[0]).to_uppercase().as_str(), c.len()) {
+            ("GET", 2) => Command::Get(s(&c[1])),
+            ("SET", 3) => Command::set(s(&c[1]), SDS::new(c[2].clone())),
+            _ => Command::Ping(None),
+        }
+    };
+    let mut sim = SimulatedConnection::new(seed);
+    if partial > 0.0 {
+        sim = sim.with_partial_reads(partial);
+    }
+    sim.send_pipeline(cmds.iter().map(to_cmd).collect());
+    let res = catch_unwind(AssertUnwindSafe(move || {
+        let r = if per_read > 0 { sim.process_with_partial_arrivals(per_read) } else { sim.process() };
+        (r, sim.commands_executed(), sim.flush_count())
+    }));
+    let stream: Vec<u8> = cmd_frames(cmds).concat();
+    let op = format!("S {}", hex(&stream));
+    let (line, vals, executed) = match &res {
+        Ok((rs, n, _)) => {
+            let vals: Vec<V> = rs.iter().map(V::from_rv).collect();
+            let texts: Vec<String> = vals.iter().map(reply_text).collect();
+            (format!("n={} [{}] end=eof", vals.len(), texts.join(" ; ")), vals, *n)
+        }
+        Err(_) => ("n=0 [] end=crash".to_string(), vec![], 0),
+    };
+    cx.out.op(op.clone(), line.clone());
+    cx.out.case(&format!("{}|{}|{}|{}", op, seed, partial, per_read), cmds.len() >= 2);
+    cx.out.count(&format!("mirror:{}:partial={}:per-read={}", src, partial, per_read.min(3)));
+    let shown: Vec<Vec<String>> = cmds.iter().map(|c| c.iter().map(|a| String::from_utf8_lossy(a).to_string()).collect()).collect();
+    let twin_cfg = Cfg { min_pipeline: 1 << 40, batch_threshold: 1 << 20, read_size: 8192, max_buffer: 1_000_000 };
+    let t = cx.runner.run(&twin_cfg, &cmd_frames(cmds));
+    let (tvals, _) = decode_replies(&t.written);
+    if res.is_err() || vals.len() != cmds.len() || executed != cmds.len() || vals != tvals {
+        cx.out.violation("C04:mirror:differs-from-production", "SimulatedConnection (the mirror the repository's connection tests run) answers a well-formed pipeline of GET / SET / PING differently from the production handler, or not once per command",
+            json!({"commands": shown, "mirror": line, "commands_executed": executed, "production": tvals.iter().map(|v| v.show()).collect::<Vec<_>>(), "seed": seed, "partial_read_probability": partial, "commands_per_arrival": per_read, "source": src}));
+    }
+}
+
+fn mirror_cases(cx: &mut Cx, rng: &mut Rng, n: usize) {
+    let keys: [&[u8]; 3] = [b"k", b"key:2", b"a-longer-key-name-0123456789"];
+    for i in 0..n {
+        let depth = *rng.pick(&[1u64, 2, 3, 5, 8, 16, 64]);
+        let cmds: Vec<Vec<Vec<u8>>> = (0..depth).map(|_| match rng.below(5) {
+            0 | 1 => vec![b"GET".to_vec(), rng.pick(&keys).to_vec()],
+            2 | 3 => vec![b"SET".to_vec(), rng.pick(&keys).to_vec(), value(rng).into_iter().take(64).collect()],
+            _ => vec![b"PING".to_vec()],
+        }).collect();
+        let partial = *rng.pick(&[0.0f64, 0.3, 0.9, 1.0]);
+        let per_read = *rng.pick(&[0usize, 0, 1, 2, 3]);
+        mirror_case(cx, &cmds, i as u64 + 1, partial, per_read, "random");
+    }
+}
+
 // ---------------------------------------------------------------- the real server over loopback TCP
 
 struct TcpCfg {
@@ -2103,6 +2167,8 @@ fn run_inner(a: &Args) {
     lap("any");
     tcp_end_to_end(&mut cx);
     lap("tcp");
+    mirror_cases(&mut cx, &mut rng, if a.tier == "thorough" { 3000 } else { 300 });
+    lap("mirror");
     // deterministic sweep: GET/SET runs of depth 1..7 around both thresholds, whole / per-command / 1-byte
     for depth in 1..=7usize {
         for mode in 0..2 {
